@@ -8,6 +8,7 @@ package main
 
 import (
 	"fmt"
+	"sort"
 	"time"
 
 	"verif/engine"
@@ -42,10 +43,27 @@ func (k cfg) name() string {
 	return s
 }
 
+// weight estimates the number of leaves of a configuration.
+func weight(k cfg) int {
+	w := mp.Histories(k.mode, k.n)
+	if k.mode == mp.LeftDeep {
+		w = 40 * k.n * k.n
+		for b := 1; b < k.bound; b++ {
+			w *= 4 * k.n
+		}
+	} else if k.bound > 0 {
+		w *= 8 * k.n
+		if k.bound > 1 {
+			w *= 4 * k.n
+		}
+	}
+	return w
+}
+
 func (k cfg) search() mp.Search { return mp.Search{Mode: k.mode, Variants: true} }
 
 func scenarios(tier string) []engine.Scenario {
-	var out []engine.Scenario
+	out := append(rejectScenarios(tier), crsScenarios(tier)...) // small scenarios first
 	add := func(k cfg) {
 		k2 := k
 		nm := k2.name()
@@ -60,11 +78,12 @@ func scenarios(tier string) []engine.Scenario {
 		}
 		out = append(out, engine.Scenario{Name: nm, Bound: k2.bound, Fn: fn})
 	}
-	for _, k := range catalogue(tier) {
+	cat := catalogue(tier)
+	// cheapest first: when the internal deadline strikes on a loaded machine, depth is lost, not breadth
+	sort.SliceStable(cat, func(i, j int) bool { return weight(cat[i]) < weight(cat[j]) })
+	for _, k := range cat {
 		add(k)
 	}
-	out = append(out, rejectScenarios(tier)...)
-	out = append(out, crsScenarios(tier)...)
 	return out
 }
 
@@ -72,18 +91,23 @@ func main() {
 	engine.Main(engine.Check{
 		ID:    "C14",
 		Level: "model_checking",
-		Rule: "One scenario per (protocol CPK/RLK round 1/RLK round 2/GAL/EVK, modulus chain, NTT flag, evaluation-key parameters LevelQ/LevelP/BaseTwoDecomposition, Galois element, number of parties N). " +
+		Rule: "One scenario per (protocol CPK/RLK round 1/RLK round 2/GAL/EVK, modulus chain incl. three conjugate-invariant rings of even and odd log N, NTT flag, evaluation-key parameters LevelQ/LevelP/BaseTwoDecomposition, Galois element (the whole group on the default chains), number of parties N). " +
 			"Inside, the merge lattice of share aggregation is searched: state = partition of the N party shares into merged groups, transition = AggregateShares(a,b) of two pending groups. " +
-			"mode full (N<=4 quick, <=5 thorough): every pair at every step = every order and every tree shape (N!(N-1)!/2^(N-1) histories); mode adjacent: every tree shape in index order ((N-1)! histories); " +
-			"mode leftdeep (N=6..8): every fold order within <= `bound` departures from index order (the cap). Per merge one of 6 variants (plain, operands swapped, serialization hop of either operand, output aliasing either operand) " +
-			"with at most `bound` non-plain variants per history (1 quick, 2 thorough for N<=4). Every transition is compared with the coefficient-wise modular sum of the member shares (so equal partitions hold equal shares and all terminal states coincide); " +
-			"each terminal state's key is then used by the single-party encryptor/evaluator and read with an independent phase computation under the ideal secret sum(s_i). " +
+			"mode full (N<=4, CPK <=5 quick; <=5, CPK <=6 thorough): every pair at every step = every order and every tree shape (N!(N-1)!/2^(N-1) histories); mode adjacent: every tree shape in index order ((N-1)! histories); " +
+			"mode leftdeep (N=6..8): every fold order within <= `bound` departures from index order (the cap: 2 quick, 3 thorough). Per merge one of 8 variants (plain, operands swapped, MarshalBinary hop of either operand, output aliasing either operand, " +
+			"WriteTo/ReadFrom hop of the first operand over a one-byte-per-read transport / of the second over a transport whose first read ends at byte 5). Two more non-free axes per leaf: how the parties' protocol objects were obtained " +
+			"(ShallowCopies of party 0's, all constructed, a chain of copies) and what they did before (nothing / a run at a lower shape with the same key objects / a run at another shape with other keys). At most `bound` (1; 2 in thorough for N<=4) non-default answers over all non-free axes. " +
+			"Every transition is compared with the coefficient-wise modular sum of the member shares (so equal partitions hold equal shares and all terminal states coincide); " +
+			"each terminal state's key is then used by the single-party encryptor/evaluator and read with an independent, ring-type aware phase computation under the ideal secret sum(s_i). " +
 			"Mismatch scenarios enumerate every operand position of a share with a different Galois element / level / decomposition; CRS scenarios replay every call sequence of length <=3 by two parties.",
 		Assumptions: []string{
 			"all parties use the same parameters, the same CRS key and the same sequence of SampleCRP calls",
-			"noise bound: N x the support-derived single-party worst case (Xe truncated at floor(6 sigma+0.5), ternary secrets) for CPK/GAL/EVK; for RLK the support-derived N-party worst case (its s*e0+u*e1 term is a product of two N-party sums, hence quadratic in N: no linear worst-case bound exists)",
-			"functional oracle only where the worst-case noise bound is below Q/8 (otherwise the phase carries no information); standard ring only (the reference phase is negacyclic)",
+			"noise bound: N x the support-derived single-party worst case (Xe truncated at floor(6 sigma+0.5), ternary secrets; a product in the ring has N terms per coefficient, 2N in the conjugate-invariant ring) for CPK/GAL/EVK; for RLK the support-derived N-party worst case (its s*e0+u*e1 term is a product of two N-party sums, hence quadratic in N: no linear worst-case bound exists)",
+			"functional oracle only where the worst-case noise bound is below Q/8 (otherwise the phase carries no information)",
+			"every EVK/GAL/RLK key is also judged without any evaluator: each row must be an RLWE sample of the gadget multiple of the ideal input secret under the ideal output secret with error <= N*B (RLK: the N-party bound above); this also judges the shapes the evaluator cannot use",
 			"a key whose single-party counterpart (rlwe.KeyGenerator, same ideal secret, same parameters) fails the same functional test is outside the statement ('as a single-party key would')",
+			"conjugate-invariant ring: Galois elements are taken in the subgroup <5> modulo 4N (the representatives the library indexes its automorphisms by)",
+			"protocol objects are used sequentially (sharing of scratch memory between ShallowCopies is C10's subject)",
 		},
 		Scenarios:      scenarios,
 		QuickBudget:    150 * time.Second,
@@ -99,11 +123,11 @@ func expect(tier string) []string {
 		"merge-variant=plain", "merge-variant=swap", "merge-variant=hop-first", "merge-variant=hop-second", "merge-variant=alias-first", "merge-variant=alias-second",
 		"merge-variant=stream-first-1byte", "merge-variant=stream-second-split5",
 		"instances=copies-of-party0", "instances=all-constructed", "instances=chain-of-copies",
-		"history=first-use", "history=after-run-at-lower-shape", "history=after-run-at-other-shape",
+		"history=first-use", "history=after-run-at-lower-shape-same-keys", "history=after-run-at-other-shape-other-keys",
 		"parties=1", "parties=2", "parties=3", "parties=4", "parties=5", "parties=6", "parties=7", "parties=8",
 		"chain=mid", "chain=mixed", "chain=mixup", "chain=nop", "chain=big", "chain=midci", "chain=mixedci", "chain=nopci",
 		"ntt=true", "ntt=false", "b2=0", "b2=7", "b2=16", "lp=-1", "lp=0", "lp=1", "lq=0",
-		"functional=cpk-encrypt", "functional=rlk-relinearize", "functional=gal-automorphism", "functional=evk-reencrypt",
+		"functional=key-rows", "functional=cpk-encrypt", "functional=rlk-relinearize", "functional=gal-automorphism", "functional=evk-reencrypt",
 		"digits=unequal", "crs=replayed",
 		"mismatch=gal/galEl", "mismatch=evk/levelQ", "mismatch=evk/levelP", "mismatch=evk/base2", "mismatch=rlk/levelQ", "mismatch=rlk/base2",
 	}
